@@ -98,7 +98,12 @@ func mkBindings() match.Bindings {
 // bindingsVariant: caller bindings of several shapes (the deep one above; flat
 // with arrays only; arrays of arrays / of objects; Go-typed numbers).
 func bindingsVariant(k int) match.Bindings {
-	switch k % 5 {
+	switch k % 7 {
+	case 5:
+		// Go-typed containers, as a message built in Go or a value set by a native action has them
+		return match.Bindings{"arr": []string{"a", "b"}, "attrs": map[string]string{"k": "v"}, "x": 1.0}
+	case 6:
+		return match.Bindings{"?order": map[string]interface{}{"items": []map[string]interface{}{{"sku": "x"}}, "tags": []string{"t"}}, "arr": []int{1, 2}}
 	case 1:
 		return match.Bindings{"queue": []interface{}{"a", "b", "c"}, "owner": "alice", "x": 1.0}
 	case 2:
@@ -187,7 +192,7 @@ func (e *exec) run(rec *fw.Rec, name string, bs match.Bindings, props core.StepP
 }
 
 func Run(cfg fw.Config, rec *fw.Rec) {
-	rec.Rule = "17 polluting scripts (in-place mutation of _.bindings at depth 1-4, of _.props incl. nested maps and lists, globals with and without var, Object/Array prototype and JSON/Math/Object.keys patches, replaced environment members, pollution followed by a throw) run (on caller bindings of 5 shapes: nested objects, flat with arrays only, arrays of arrays / objects, Go-typed numbers) in sequences of length 1-5 before a probe script that reports everything observable (globals, prototypes, built-ins, environment keys, props, bindings); the probe's report must equal its report in a clean run; a self-probe pollutes and reports leftovers of its own earlier executions; the caller's bindings and props are deep-snapshotted around every execution (also through Spec.Step); 16-64 goroutines run one compiled source concurrently (race detector on); non-trivial = polluter sequence followed by a clean probe; distinct by sequence"
+	rec.Rule = "17 polluting scripts (in-place mutation of _.bindings at depth 1-4, of _.props incl. nested maps and lists, globals with and without var, Object/Array prototype and JSON/Math/Object.keys patches, replaced environment members, pollution followed by a throw) run (on caller bindings of 7 shapes: nested objects, flat with arrays only, arrays of arrays / objects, Go-typed numbers, Go-typed containers such as []string and map[string]string) in sequences of length 1-5 before a probe script that reports everything observable (globals, prototypes, built-ins, environment keys, props, bindings); the probe's report must equal its report in a clean run; a self-probe pollutes and reports leftovers of its own earlier executions; the caller's bindings and props are deep-snapshotted around every execution (also through Spec.Step); 16-64 goroutines run one compiled source concurrently (race detector on); non-trivial = polluter sequence followed by a clean probe; distinct by sequence"
 	rec.Required = []string{"probe_after_polluters_clean", "self_probe_clean", "concurrent_rounds", "step_props_intact", "snapshots_intact"}
 	rec.Assume = []string{"the race detector reports only races that occur in the interleavings produced", "probe observability: what the probe script can enumerate (globals by name, prototypes, built-ins used by the DSL, environment keys, props, bindings)"}
 	e := newExec(rec)
